@@ -157,33 +157,34 @@ def run(ctx):
     if not sb:
         ctx.fail_closed("STD", "read_standard_file not found")
     else:
-        ok = False
-        det = ""
-        for p in Explorer(sb).explore():
-            for (_bb, callee, args, _r) in p.events:
-                if "sqpack::read_data_block" in callee and len(args) == 2:
-                    e = N(args[1])
-                    det = show(e)[:140]
-                    f_ = flds(e)
-                    ok = ("p", 2) in [("p", t[1]) for t in walk(args[1]) if isinstance(t, tuple) and t[0] == "p"] and {"size", "offset"} <= f_ and any(isinstance(t, tuple) and t[0] == "idx" for t in walk(e))
-        ctx.ob("STD", "block-position", ok, f"standard blocks are read at {det}; must be entry offset + file_info.size + blocks[i].offset", sb.file, sb.line, sample=True)
+        # position of each block read = entry offset + file_info.size + <element of the block table>.offset, the
+        # elements being visited in table order: either blocks[i] with i the loop counter, or forward iteration over
+        # the table (both spellings are the same behaviour)
         ix = index_of(sb)
+        tbl = [i for i, l in enumerate(sb.j["locals"]) if l["ty"].replace(" ", "") == "std::vec::Vec<sqpack::data::Block>"]
+        ok = order = False
+        det = ""
+        for _bi, t in sb.calls():
+            c = t.get("res") or ""
+            if "sqpack::read_data_block" in c and len(t["args"]) == 2:
+                d = derive(ix, t["args"][1])
+                calls = {x.split("::")[-1] for x in d.calls}
+                det = f"fields {sorted(d.names & {'size', 'offset', 'file_size'})}, params {sorted(d.params)}, calls {sorted(calls)}"
+                from_table = bool(tbl) and any(l in d.locals for l in tbl)
+                by_index = ("index" in calls or any(x.endswith("::index") for x in d.calls)) and "next" in calls
+                by_iter = "next" in calls and ({"into_iter", "iter"} & calls)
+                ok = 2 in d.params and {"size", "offset"} <= d.names and from_table and bool(by_index or by_iter)
+                order = from_table and bool(by_index or by_iter) and not ({"rev", "next_back", "rposition", "last"} & calls)
+        ctx.ob("STD", "block-position", ok, f"standard blocks are read at a position derived from {det}; must be entry offset + file_info.size + the block table element's offset", sb.file, sb.line, sample=True)
         cnt_ok = False
         for _bi, _si, s in sb.stmts():
             rv = s.get("rv", {})
             if rv.get("k") == "agg" and rv.get("adt", "").endswith("ops::Range"):
                 if "num_blocks" in derive(ix, rv["ops"][1]).names:
                     cnt_ok = True
-        ctx.ob("STD", "block-count", cnt_ok, "the block table and the block loop run over standard_info.num_blocks", sb.file, sb.line)
+        ctx.ob("STD", "block-count", cnt_ok, "the block table is read for standard_info.num_blocks entries", sb.file, sb.line)
         app = any((t.get("res") or "").endswith("::append") for _bi, t in sb.calls())
-        idx_loopvar = False
-        for p in Explorer(sb).explore():
-            for (_bb, callee, args, _r) in p.events:
-                if "sqpack::read_data_block" in callee:
-                    ixs = [t for t in walk(args[1]) if isinstance(t, tuple) and t[0] == "idx"]
-                    if ixs and any(isinstance(t, tuple) and t[0] == "call" and t[1].endswith("::next") for t in walk(ixs[0][2])):
-                        idx_loopvar = True
-        ctx.ob("STD", "table-order", app and idx_loopvar, "blocks are appended in table order (indexed by the loop variable)", sb.file, sb.line)
+        ctx.ob("STD", "table-order", app and order, "blocks are appended in table order (loop counter index or forward iteration over the table)", sb.file, sb.line)
 
     # ---- TEX
     tb = prog.body("sqpack::data::SqPackData::read_texture_file")
@@ -212,6 +213,13 @@ def run(ctx):
                     if isinstance(e, tuple) and e[0] == "bin" and e[1] == "Add" and any(isinstance(t, tuple) and t[0] == "call" and "read_le::<i16>" in t[1] or (isinstance(t, tuple) and t[0] == "call" and t[1].endswith("read_le")) for t in walk(e)):
                         adv = True
         tix = index_of(tb)
+        # header length = compressed_offset of the first lod, spelled lods[0] or lods.first()
+        for _bi, t in tb.calls():
+            if (t.get("res") or "").endswith("vec::from_elem") and len(t["args"]) == 2:
+                d_ = derive(tix, t["args"][1])
+                cl_ = {x.split("::")[-1] for x in d_.calls}
+                if {"compressed_offset", "lods"} <= d_.names and (("index" in cl_ and 0 in d_.consts) or "first" in cl_) and not ({"last", "next", "next_back"} & cl_):
+                    hdr_len = True
         rbt = [l for l, nm in tb.local_names().items() if nm == "running_block_total"]
         if rbt:
             for kind, _bi2, _si2, st in tb.defs().get(rbt[0], []):
